@@ -113,7 +113,17 @@ func (g *SynGen) Expr(d int) Expr {
 	case 11:
 		dl := &DictLit{}
 		for i, n := 0, g.pick(4, "dn"); i < n; i++ {
-			dl.Keys = append(dl.Keys, []string{"a", "键", "k 2", "0"}[g.pick(4, "dk")])
+			switch g.pick(3, "dkk") {
+			case 0: // a bare identifier as key
+				dl.Keys = append(dl.Keys, g.name())
+				dl.Bare = append(dl.Bare, true)
+			case 1: // a bare number as key (its text is the key)
+				dl.Keys = append(dl.Keys, []string{"0", "12", "3.5", "007"}[g.pick(4, "dkn")])
+				dl.Bare = append(dl.Bare, true)
+			default:
+				dl.Keys = append(dl.Keys, []string{"a", "键", "k 2", "0"}[g.pick(4, "dk")])
+				dl.Bare = append(dl.Bare, false)
+			}
 			dl.Vals = append(dl.Vals, g.Expr(d-1))
 		}
 		return dl
